@@ -25,7 +25,14 @@ type sym struct {
 	t      *smt.Term
 	k      types.BasicKind
 	lo, hi *big.Int
+	// sc > 0 (float kinds with Int sort only): fixed point, the value is t / 2^sc with
+	// [lo,hi] bounding t; |t| <= 2^53 keeps it an exact float64 (x+0.5, x/2, x*0.25 ...)
+	sc uint
 }
+
+const maxFloatScale = 24
+
+func pow2(n uint) *big.Int { return new(big.Int).Lsh(big.NewInt(1), n) }
 
 type symstr struct {
 	b []value // each uint8 or sym(Uint8)
@@ -208,6 +215,9 @@ func (i *Interp) norm(s sym) value {
 	case smt.KInt:
 		if kindIsFloat(s.k) {
 			f, _ := new(big.Float).SetInt(t.Big).Float64()
+			if s.sc > 0 {
+				f = math.Ldexp(f, -int(s.sc))
+			}
 			if s.k == types.Float32 {
 				return float32(f)
 			}
@@ -303,6 +313,10 @@ func (i *Interp) fpTerm(v value) *smt.Term {
 			s := smt.FP64
 			if x.k == types.Float32 {
 				s = smt.FP32
+			}
+			if x.sc > 0 {
+				// exact: |t| <= 2^53 converts exactly and dividing by a power of two only moves the exponent
+				return c.FPArith("fp.div", c.FPFromInt(x.t, s), i.fpTerm(mkFloatOfKind(x.k, math.Ldexp(1, int(x.sc)))))
 			}
 			return c.FPFromInt(x.t, s)
 		}
@@ -633,13 +647,29 @@ func (i *Interp) symFloatBinop(op token.Token, k types.BasicKind, x, y value) va
 		if yi.t == nil {
 			yi.t = c.IntConst(yi.lo)
 		}
+		var rsc uint
+		switch op {
+		case token.MUL:
+			rsc = xi.sc + yi.sc
+		case token.QUO:
+			// division by a concrete power of two only moves the binary point
+			rsc = maxFloatScale + 1
+			if yc, ok := y.(float64); ok && yi.sc == 0 && yc > 0 {
+				if fr, e := math.Frexp(yc); fr == 0.5 && e >= 2 && e <= 12 {
+					rsc = xi.sc + uint(e-1)
+				}
+			}
+		default:
+			i.alignScales(xi, yi)
+			rsc = xi.sc
+		}
 		a, alo, ahi := xi.t, xi.lo, xi.hi
 		b, blo, bhi := yi.t, yi.lo, yi.hi
 		mk := func(t *smt.Term, lo, hi *big.Int) value {
-			if new(big.Int).Abs(lo).Cmp(two53) > 0 || new(big.Int).Abs(hi).Cmp(two53) > 0 {
+			if rsc > maxFloatScale || new(big.Int).Abs(lo).Cmp(two53) > 0 || new(big.Int).Abs(hi).Cmp(two53) > 0 {
 				return nil
 			}
-			return i.norm(sym{t: t, k: k, lo: lo, hi: hi})
+			return i.norm(sym{t: t, k: k, lo: lo, hi: hi, sc: rsc})
 		}
 		var r value
 		switch op {
@@ -650,6 +680,8 @@ func (i *Interp) symFloatBinop(op token.Token, k types.BasicKind, x, y value) va
 		case token.MUL:
 			lo, hi := mulInterval(alo, ahi, blo, bhi)
 			r = mk(c.IMul(a, b), lo, hi)
+		case token.QUO:
+			r = mk(a, alo, ahi)
 		case token.EQL:
 			return i.mkBool(c.Eq(a, b))
 		case token.NEQ:
@@ -709,6 +741,54 @@ func (i *Interp) symFloatBinop(op token.Token, k types.BasicKind, x, y value) va
 	panic(i.unsupported(fmt.Sprintf("symbolic float binop %s", op)))
 }
 
+// fixRound rounds a fixed-point float (sc > 0) to an integer-valued one (sc = 0).
+func (i *Interp) fixRound(x sym, mode string) sym {
+	c := i.ctx
+	m := pow2(x.sc)
+	mt := c.IntConst(m)
+	fl := func(t *smt.Term) *smt.Term { return c.IDiv(t, mt) } // SMT div with positive divisor = floor
+	ce := func(t *smt.Term) *smt.Term { return c.INeg(c.IDiv(c.INeg(t), mt)) }
+	bfl := func(b *big.Int) *big.Int { return new(big.Int).Div(b, m) } // Euclidean = floor for m > 0
+	bce := func(b *big.Int) *big.Int { return new(big.Int).Neg(new(big.Int).Div(new(big.Int).Neg(b), m)) }
+	switch mode {
+	case "RTN":
+		return sym{t: fl(x.t), k: x.k, lo: bfl(x.lo), hi: bfl(x.hi)}
+	case "RTP":
+		return sym{t: ce(x.t), k: x.k, lo: bce(x.lo), hi: bce(x.hi)}
+	default: // RTZ
+		return sym{t: c.Ite(c.ILt(x.t, c.IntConst64(0)), ce(x.t), fl(x.t)), k: x.k, lo: bfl(x.lo), hi: bce(x.hi)}
+	}
+}
+
+func mkFloatOfKind(k types.BasicKind, f float64) value {
+	if k == types.Float32 {
+		return float32(f)
+	}
+	return f
+}
+
+// alignScales brings two fixed-point views to a common scale (the larger one).
+func (i *Interp) alignScales(x, y *sym) {
+	c := i.ctx
+	if x.t == nil {
+		x.t = c.IntConst(x.lo)
+	}
+	if y.t == nil {
+		y.t = c.IntConst(y.lo)
+	}
+	up := func(a *sym, d uint) {
+		m := pow2(d)
+		a.t = c.IMul(a.t, c.IntConst(m))
+		a.lo, a.hi = new(big.Int).Mul(a.lo, m), new(big.Int).Mul(a.hi, m)
+		a.sc += d
+	}
+	if x.sc < y.sc {
+		up(x, y.sc-x.sc)
+	} else if y.sc < x.sc {
+		up(y, x.sc-y.sc)
+	}
+}
+
 // floatAsInt: view a float value as exact integer sym if possible (concrete integral floats too).
 func floatAsInt(v value) *sym {
 	switch x := v.(type) {
@@ -720,6 +800,16 @@ func floatAsInt(v value) *sym {
 		if x == math.Trunc(x) && math.Abs(x) <= 1<<53 && !(x == 0 && math.Signbit(x)) {
 			b, _ := big.NewFloat(x).Int(nil)
 			return &sym{t: nil, k: types.Float64, lo: b, hi: b}
+		}
+		// dyadic rational with a small denominator (0.5, 0.25, 1.5 ...)
+		if !math.IsInf(x, 0) && !math.IsNaN(x) && math.Abs(x) < 1<<20 {
+			for sc := uint(1); sc <= 10; sc++ {
+				y := math.Ldexp(x, int(sc))
+				if y == math.Trunc(y) {
+					b, _ := big.NewFloat(y).Int(nil)
+					return &sym{t: nil, k: types.Float64, lo: b, hi: b, sc: sc}
+				}
+			}
 		}
 	case float32:
 		f := float64(x)
@@ -740,7 +830,7 @@ func (i *Interp) symUnop(op token.Token, x sym) value {
 		if kindIsFloat(x.k) {
 			switch x.t.Sort.K {
 			case smt.KInt:
-				return i.norm(sym{t: c.INeg(x.t), k: x.k, lo: new(big.Int).Neg(x.hi), hi: new(big.Int).Neg(x.lo)})
+				return i.norm(sym{t: c.INeg(x.t), k: x.k, lo: new(big.Int).Neg(x.hi), hi: new(big.Int).Neg(x.lo), sc: x.sc})
 			case smt.KBV:
 				w := kindWidth(x.k)
 				return i.norm(sym{t: c.BVXor(x.t, c.BVConst(1<<uint(w-1), w)), k: x.k})
@@ -791,6 +881,10 @@ func (i *Interp) symConv(dst types.BasicKind, x sym) value {
 		return sym{t: c.FPFromSBV(x.t, i.floatSort(dst), kindSigned(src)), k: dst}
 	case kindIsFloat(src) && kindIsInt(dst):
 		if x.t.Sort.K == smt.KInt {
+			if x.sc > 0 {
+				r := i.fixRound(x, "RTZ")
+				return i.mkInt(r.t, dst, r.lo, r.hi)
+			}
 			return i.mkInt(x.t, dst, x.lo, x.hi)
 		}
 		i.note("float->int conversion encoded with fp.to_sbv/ubv (out-of-range results are unspecified in Go)")
@@ -801,11 +895,11 @@ func (i *Interp) symConv(dst types.BasicKind, x sym) value {
 		}
 		if x.t.Sort.K == smt.KInt {
 			if dst == types.Float64 {
-				return sym{t: x.t, k: dst, lo: x.lo, hi: x.hi}
+				return sym{t: x.t, k: dst, lo: x.lo, hi: x.hi, sc: x.sc}
 			}
 			lim := new(big.Int).Lsh(big.NewInt(1), 24)
 			if new(big.Int).Abs(x.lo).Cmp(lim) <= 0 && new(big.Int).Abs(x.hi).Cmp(lim) <= 0 {
-				return sym{t: x.t, k: dst, lo: x.lo, hi: x.hi}
+				return sym{t: x.t, k: dst, lo: x.lo, hi: x.hi, sc: x.sc}
 			}
 		}
 		return sym{t: c.FPConvFP(i.fpTerm(x), i.floatSort(dst)), k: dst}
@@ -826,7 +920,7 @@ func (i *Interp) scalarTerm(v value) (*smt.Term, types.BasicKind) {
 		}
 		return i.bvTerm(v), k
 	case kindIsFloat(k):
-		if s, ok := v.(sym); ok && s.t.Sort.K != smt.KFP {
+		if s, ok := v.(sym); ok && s.t.Sort.K != smt.KFP && s.sc == 0 {
 			return s.t, k
 		}
 		return i.fpTerm(v), k
@@ -887,14 +981,9 @@ func (i *Interp) iteValue(cond *smt.Term, a, b value) (value, bool) {
 		case kindIsFloat(ka):
 			ai, bi := floatAsInt(a), floatAsInt(b)
 			if ai != nil && bi != nil && (isFloatInt(a) || isFloatInt(b)) {
+				i.alignScales(ai, bi)
 				ta, tb := ai.t, bi.t
-				if ta == nil {
-					ta = c.IntConst(ai.lo)
-				}
-				if tb == nil {
-					tb = c.IntConst(bi.lo)
-				}
-				return i.norm(sym{t: c.Ite(cond, ta, tb), k: ka, lo: bigMin(ai.lo, bi.lo), hi: bigMax(ai.hi, bi.hi)}), true
+				return i.norm(sym{t: c.Ite(cond, ta, tb), k: ka, lo: bigMin(ai.lo, bi.lo), hi: bigMax(ai.hi, bi.hi), sc: ai.sc}), true
 			}
 			// bits-backed both?
 			if bitsBacked(a) && bitsBacked(b) {
